@@ -101,7 +101,7 @@ static int c03_script(unsigned long long seed, int nc, int progressive, jpeg_sca
   return n;
 }
 
-typedef struct { int ss, w, h, prec, kind, mode, ri, rirows, nc; unsigned long long seed, sseed; } c03_job;
+typedef struct { int ss, w, h, prec, kind, mode, ri, rirows, nc, qk; unsigned long long seed, sseed; } c03_job;
 
 /* set the entropy-coding parameters of a compressor for `mode` */
 static void c03_setmode(struct jpeg_compress_struct *c, c03_job *j, int mode, jpeg_scan_info *scans)
@@ -135,6 +135,14 @@ static int c03_build(c03_job *j, unsigned char **out, unsigned long *outsize, in
   for (ci = 0; ci < j->nc; ci++) { c.comp_info[ci].h_samp_factor = ci ? 1 : hs; c.comp_info[ci].v_samp_factor = ci ? 1 : vs; }
   if (j->nc == 4) { c.comp_info[3].h_samp_factor = hs; c.comp_info[3].v_samp_factor = vs; c.comp_info[1].dc_tbl_no = c.comp_info[1].ac_tbl_no = 1; c.comp_info[2].dc_tbl_no = c.comp_info[2].ac_tbl_no = 1; }
   jpeg_set_quality(&c, 75, TRUE);
+  if (j->qk) {
+    /* custom tables: qk bit0 -> table 0 has entries above 255, bit1 -> table 1 has; qk 4 -> all ones */
+    unsigned int q[64]; int tb;
+    for (tb = 0; tb < 2; tb++) {
+      for (k = 0; k < 64; k++) q[k] = j->qk == 4 ? 1 : (unsigned)(1 + (k * 7 + tb * 3) % 200 + (((j->qk >> tb) & 1) && k % 9 == 4 ? 300 + 40 * k : 0));
+      jpeg_add_quant_table(&c, tb, q, 100, FALSE);
+    }
+  }
   c03_setmode(&c, j, j->mode, scans);
   for (ci = 0; ci < j->nc; ci++) {
     int chs = c.comp_info[ci].h_samp_factor, cvs = c.comp_info[ci].v_samp_factor;
@@ -213,6 +221,7 @@ static int c03_ent(toks_t *t)
   const unsigned char *fin; unsigned long fn;
   j.ss = (int)tl(t, 1); j.w = (int)tl(t, 2); j.h = (int)tl(t, 3); j.prec = (int)tl(t, 4); j.seed = (unsigned long long)tll(t, 5); j.kind = (int)tl(t, 6);
   j.mode = (int)tl(t, 7); j.ri = (int)tl(t, 8); j.rirows = (int)tl(t, 9); j.sseed = (unsigned long long)tll(t, 10);
+  j.qk = t->n > 12 ? (int)tl(t, 12) : 0;
   j.nc = j.ss == 3 ? 1 : (j.ss >= 100 ? 4 : 3);
   if (j.ss >= 100) j.ss -= 100;
   if (!c03_build(&j, &jp, &n, &err)) { printf("R skip err build %d\n", err); printf("O fail ent: compressor rejected a valid request (code %d)\n", err); goto done; }
